@@ -2,6 +2,7 @@
 import H3Model.Proto
 import H3Model.Poly
 import H3Model.PolyIter
+import H3Model.PolyAlloc
 import Std.Data.HashMap
 
 namespace H3.Ops
@@ -30,8 +31,33 @@ def geoOfTable (m : Std.HashMap UInt64 (Array Bool)) (mode : Nat) : PolyGeo wher
     | some p => acceptTarget mode ⟨p.getD 0 false, p.getD 1 false, p.getD 2 false, p.getD 3 false, p.getD 4 false,
         p.getD 5 false, p.getD 6 false, p.getD 7 false⟩
 
+def allocTailP (a : AState) : String :=
+  let nf := (a.trace.filter fun e => match e with | .fail _ _ => true | _ => false).length
+  " live=" ++ toString a.live.length ++ " calls=" ++ toString a.calls ++ " failed=" ++ toString nf ++
+    " badfree=0 | " ++ showTrace a.trace
+
+def errOfCode (c : Nat) : Option H3Error :=
+  [H3Error.failed, .domain, .latLngDomain, .resDomain, .cellInvalid, .dirEdgeInvalid, .undirEdgeInvalid, .vertexInvalid,
+   .pentagon, .duplicateInput, .notNeighbors, .resMismatch, .memoryAlloc, .memoryBounds, .optionInvalid].find? (·.code == c)
+
 def opsPoly (op : String) (a : List String) : Option String :=
   match op, a with
+  | "apolyxs", failAt :: from_ :: res :: flags :: size :: ncells :: itErr :: nl :: nv0 :: _ => do
+    -- apolyxs failAt from res flags size <ncells> <itErr> <polygon: nl nv0 …>; ncells / itErr = what the real iterator
+    -- did with the default allocator (geometry), everything else is the model
+    let failAt ← failAt.toNat?; let res ← parseInt res; let flags ← flags.toNat?; let size ← parseInt size
+    let ncells ← ncells.toNat?; let itErr ← itErr.toNat?; let nl ← nl.toNat?; let _ ← nv0.toNat?
+    let sched : Nat → Bool := fun c => failAt != 0 && (if from_ == "1" then c >= failAt else c == failAt)
+    let (r, st) := polygonToCellsExperimentalA sched res (BitVec.ofNat 32 flags) (nl - 1) ⟨ncells, errOfCode itErr⟩ size {}
+    let rs := match r with | .ok n => "ok " ++ toString n | .error e => "err " ++ toString e.code
+    pure (rs ++ allocTailP st)
+  | "amaxpolyxs", failAt :: from_ :: res :: flags :: itErr :: nl :: nv0 :: _ => do
+    let failAt ← failAt.toNat?; let res ← parseInt res; let flags ← flags.toNat?
+    let itErr ← itErr.toNat?; let nl ← nl.toNat?; let nv0 ← nv0.toNat?
+    let sched : Nat → Bool := fun c => failAt != 0 && (if from_ == "1" then c >= failAt else c == failAt)
+    let (r, st) := maxPolygonToCellsSizeExperimentalA sched res (BitVec.ofNat 32 flags) nv0 (nl - 1) ⟨0, errOfCode itErr⟩ {}
+    let rs := match r with | .ok _ => "ok" | .error e => "err " ++ toString e.code
+    pure (rs ++ allocTailP st)
   | "polyrun", res :: mode :: toks => do
     let res ← res.toNat?; let mode ← mode.toNat?
     let m ← parsePolyTable toks
